@@ -173,6 +173,8 @@ def judge(case, obs):
     cap, cont = case.get("cap"), bool(case.get("cont"))
     world = obs["world"]
     V = {p: [] for p in ("C01", "C02", "C05", "C12", "C20")}
+    if kind == "rw":
+        return judge_rowwise(case, obs, V)
     wc = classify_world(case, obs)
     out = obs["outcome"]
     label = out
@@ -309,6 +311,52 @@ def judge(case, obs):
                 v("C20", "borehole_flow_split_wrong", f"{method}: GHE with {n_} bh built with V_sys={vs}, m_bh={mf}",
                   observed=[vs, mf])
                 break
+    return V, label
+
+
+def judge_rowwise(case, obs, V):
+    """RowWise: C01 (feasible unless the documented fallback), C02 (height bounds, exception type), C12 (state level)."""
+    method, cont = case["method"], bool(case.get("cont"))
+    world = obs["world"]
+    out = obs["outcome"]
+
+    def v(prop, kindname, msg, observed=None, expected=None, **attrs):
+        V[prop].append(core.viol(kindname, case, observed=observed, expected=expected, msg=msg, method=method, **attrs))
+
+    if out.startswith("exc:"):
+        v("C02", "wrong_exception_type", f"rowwise: find_design raised {out[4:]}: {obs['exc']}", observed=out,
+          expected="design or ValueError", exc=out[4:])
+        return V, out
+    if out == "ValueError":
+        return V, out
+    H, nbh = obs["H"], obs["sel_nbh"]
+    e_ret = world.excess(obs["sel_coords"], H)
+    q0 = obs["queries"][0] if obs["queries"] else None
+    densest_fails = bool(q0 and q0[2] == HMAX and q0[3] > 0)
+    esc = "fallback_largest" if (cont and H == HMAX and e_ret > 0 and densest_fails) else None
+    label = esc or "design"
+    if not (HMIN <= H <= HMAX):
+        v("C02", "height_out_of_bounds", f"rowwise: returned height {H} outside [{HMIN},{HMAX}]", observed=H)
+    if esc is None and e_ret > TOL:
+        v("C01", "returned_design_infeasible", f"rowwise: returned {nbh} bh @ {H:.6f} m has excess {e_ret:.6g} K > 1e-3",
+          observed=e_ret, expected="<= 1e-3", clamped=("min" if H == HMIN else "max" if H == HMAX else "no"))
+    if obs["hp_max"] is None:
+        v("C12", "no_temperatures", "rowwise: hp_eft empty after find_design")
+    else:
+        mx, mn = world.answer(obs["sel_coords"], H)
+        if abs(obs["hp_max"] - mx) > TOL or abs(obs["hp_min"] - mn) > TOL:
+            v("C12", "stale_temperatures", f"rowwise: reported max/min EFT {obs['hp_max']:.6f}/{obs['hp_min']:.6f} but "
+              f"simulating the returned field at the returned height {H:.4f} gives {mx:.6f}/{mn:.6f}",
+              observed=[obs["hp_max"], obs["hp_min"]], expected=[mx, mn],
+              clamped=("min" if H == HMIN else "max" if H == HMAX else "no"))
+    if obs["ghe_nbh"] != nbh:
+        v("C12", "nbh_mismatch", f"rowwise: ghe.nbh={obs['ghe_nbh']} but {nbh} coordinates")
+    if obs.get("selected_coordinates_len") is not None and obs["selected_coordinates_len"] != nbh:
+        v("C12", "nbh_mismatch", f"rowwise: selected_coordinates has {obs['selected_coordinates_len']} rows, ghe has {nbh}")
+    for r in obs["tracker"]:
+        if abs(r[1] - max(r[2] - world.max_allow, world.min_allow - r[3])) > 1e-12:
+            v("C12", "search_log_row_inconsistent", f"rowwise: search log row {r} violates excess=max(max-upper, lower-min)")
+            break
     return V, label
 
 
@@ -498,6 +546,16 @@ def expand(chunk):
                         yield {"fam": fam, "method": method, "geo": geo, "cap": cap, "cont": cont,
                                "flow": chunk.get("flow", "borehole"),
                                "world": {"kind": "drill", "T": T, **WVARS[chunk.get("wv", 0)]}, "need_count": c, "level": lvl}
+    elif fam == "A6":
+        geo = chunk["geo"]
+        nmax = chunk["nmax"]
+        for c in range(chunk["c0"], min(chunk["c0"] + chunk["cn"], nmax + 2)):
+            for lvl, T in (("top", c * HMAX * (1 - 1e-3) - IRR), ("mid", c * 0.5 * (HMIN + HMAX) + IRR),
+                           ("bottom", c * HMIN * (1 - 1e-3) - IRR)):
+                for cont in (False, True):
+                    yield {"fam": fam, "method": "rowwise", "geo": geo, "cap": None, "cont": cont,
+                           "flow": chunk.get("flow", "borehole"),
+                           "world": {"kind": "drill", "T": T, **WVARS[chunk.get("wv", 0)]}, "need_count": c, "level": lvl}
     else:
         raise core.HarnessError(f"unknown family {fam}")
 
